@@ -24,6 +24,15 @@ fn eq_bp<H: Hasher>(a: &BatchMerkleProof<H>, b: &BatchMerkleProof<H>) -> bool {
     a.leaves == b.leaves && a.nodes == b.nodes && a.depth == b.depth
 }
 
+/// the digest with ONE bit of its wire form flipped (any byte, any bit); None when the result is
+/// not a valid encoding (algebraic digests whose element would leave the field)
+fn flip_one_bit<H: Hasher>(d: &H::Digest, ch: &mut Chooser) -> Option<H::Digest> {
+    let mut b = utils::Serializable::to_bytes(d);
+    let i = ch.index("f.byte", b.len());
+    b[i] ^= 1 << ch.index("f.bit", 8);
+    <H::Digest as utils::Deserializable>::read_from_bytes(&b).ok().filter(|x| x != d)
+}
+
 fn other_digest<H: Hasher>(salt: u64) -> H::Digest {
     H::hash(&salt.to_le_bytes())
 }
@@ -206,9 +215,19 @@ fn faulted<H: Hasher>(ch: &mut Chooser, ctx: &mut Ctx, cfg: Cfg) {
     let what: String = match kind {
         0 => {
             let i = ch.index("f.leaf", proof.leaves.len());
-            proof.leaves[i] = other_digest::<H>(salt ^ 1);
-            ctx.fault("claimed_leaf_flipped");
-            format!("claimed leaf {i} replaced")
+            // a single flipped bit (every byte of the digest must be bound), or another digest
+            match if ch.chance("f.onebit?", 1, 2) { flip_one_bit::<H>(&proof.leaves[i], ch) } else { None } {
+                Some(d) => {
+                    proof.leaves[i] = d;
+                    ctx.fault("claimed_leaf_one_bit_flipped");
+                    format!("one bit of claimed leaf {i} flipped")
+                },
+                None => {
+                    proof.leaves[i] = other_digest::<H>(salt ^ 1);
+                    ctx.fault("claimed_leaf_flipped");
+                    format!("claimed leaf {i} replaced")
+                },
+            }
         },
         1 => {
             let vs: Vec<usize> = (0..proof.nodes.len()).filter(|v| !proof.nodes[*v].is_empty()).collect();
@@ -218,9 +237,18 @@ fn faulted<H: Hasher>(ch: &mut Chooser, ctx: &mut Ctx, cfg: Cfg) {
             }
             let v = vs[ch.index("f.vec", vs.len())];
             let j = ch.index("f.node", proof.nodes[v].len());
-            proof.nodes[v][j] = other_digest::<H>(salt ^ 2);
-            ctx.fault("node_flipped");
-            format!("node {j} of vector {v} replaced")
+            match if ch.chance("f.onebit?", 1, 2) { flip_one_bit::<H>(&proof.nodes[v][j], ch) } else { None } {
+                Some(d) => {
+                    proof.nodes[v][j] = d;
+                    ctx.fault("node_one_bit_flipped");
+                    format!("one bit of node {j} of vector {v} flipped")
+                },
+                None => {
+                    proof.nodes[v][j] = other_digest::<H>(salt ^ 2);
+                    ctx.fault("node_flipped");
+                    format!("node {j} of vector {v} replaced")
+                },
+            }
         },
         2 | 3 | 4 => {
             let vs: Vec<usize> = (0..proof.nodes.len()).filter(|v| !proof.nodes[*v].is_empty()).collect();
@@ -553,7 +581,7 @@ pub fn spec() -> CheckSpec {
         id: "C10",
         level: "fault_enumeration",
         build: "serial (+ overflow-checking build for one arm, concurrent build under SimRayon for one arm)",
-        rule: "fault-free arm, enumerated completely: for trees of 2, 4, 8 and 16 leaves EVERY non-empty position set (3 + 15 + 255 + 65535 per hasher; quick: 2 hashers, thorough: all 6), half of the runs with a taped permutation of the position list: prove_batch / verify_batch / get_root, claimed leaves in list order, into_paths equal to the single openings (each verified), from_paths back to the batch opening. Fault arm, sampled: trees of depth 1..10, 1..255 positions with adjacency patterns (siblings, cousins, all-left, right edge), sorted or not, then one fault on the opening or the position list in transit (15 kinds, incl. the coordinated 'one more position with an arbitrary claimed leaf'); the same arm also runs in the overflow-checking build inside an isolated worker. Oracle: Ok => every claimed leaf at a queried in-range position equals the committed leaf and the shape is the honest one; never a panic. Scheduled-construction arm (concurrent build, isolated worker): trees of 1024..8192 leaves built by MerkleTree::new under a simulator-chosen pool size (1..64) and task schedule; the root must equal the level-by-level merge of the leaves and the tree's single and batch openings must verify against it. Non-trivial = a fault fired or positions permuted (all runs of the fault arm); distinct = distinct event-log digests.".into(),
+        rule: "fault-free arm, enumerated completely: for trees of 2, 4, 8 and 16 leaves EVERY non-empty position set (3 + 15 + 255 + 65535 per hasher; quick: 2 hashers, thorough: all 6), half of the runs with a taped permutation of the position list: prove_batch / verify_batch / get_root, claimed leaves in list order, into_paths equal to the single openings (each verified), from_paths back to the batch opening. Fault arm, sampled: trees of depth 1..10, 1..255 positions with adjacency patterns (siblings, cousins, all-left, right edge), sorted or not, then one fault on the opening or the position list in transit (15 kinds; a changed leaf or node is either another digest or the same digest with a single bit flipped at any byte, incl. the coordinated 'one more position with an arbitrary claimed leaf'); the same arm also runs in the overflow-checking build inside an isolated worker. Oracle: Ok => every claimed leaf at a queried in-range position equals the committed leaf and the shape is the honest one; never a panic. Scheduled-construction arm (concurrent build, isolated worker): trees of 1024..8192 leaves built by MerkleTree::new under a simulator-chosen pool size (1..64) and task schedule; the root must equal the level-by-level merge of the leaves and the tree's single and batch openings must verify against it. Non-trivial = a fault fired or positions permuted (all runs of the fault arm); distinct = distinct event-log digests.".into(),
         interleaving_measure: "distinct (tree, position list, fault) histories".into(),
         real: vec!["crypto::MerkleTree (new, prove, prove_batch, verify, verify_batch)", "crypto::BatchMerkleProof (get_root, into_paths, from_paths)", "all six hashers"],
         stub: vec!["nothing in the serial arms; rayon (replaced by SimRayon) in the scheduled-construction arm"],
